@@ -300,6 +300,17 @@ def r4(ctx, sc):
                     'yy_buffer_status=YY_BUFFER_NEW': 'the next refill would not treat the buffer as a new source'}[what], v.name), variant=v.describe())
             else:
                 rep.ok('C11.R4', '%s yy_flush_buffer: b->%s@%s on every path with b != NULL' % (v.name, what, sts[0].line))
+        # the reload copies the fields into the scanner registers: every field store comes first
+        n += 1
+        key = sc.key('C11.R4', 'yy_flush_buffer', 'stores-before-reload')
+        lds0 = sc.calls(f, 'yy_load_buffer_state')
+        late = [x for c in lds0 for x in cfg.reach(c) if x.op == 'store' and any(x in sts for _, sts in obligations)]
+        if late:
+            what = next(w for w, sts in obligations if late[0] in sts)
+            rep.fail('C11.R4', key, where(late[0]), 'yy_flush_buffer stores b->%s after it has reloaded the scanner registers from b: flushing the current buffer leaves the registers with the value from before the flush '
+                     '(e.g. the stale scan position of a buffer that was switched away from and back) [variant %s]' % (what, v.name), variant=v.describe())
+        else:
+            rep.ok('C11.R4', '%s yy_flush_buffer: all field stores precede the reload of the scanner registers' % v.name)
         # load only under b == current
         n += 1
         key = sc.key('C11.R4', 'yy_flush_buffer', 'load-if-current')
